@@ -15,13 +15,15 @@ case $FL in
   limits) CF="-O1 -DCJSON_NESTING_LIMIT=4 -DCJSON_CIRCULAR_LIMIT=1 -DVD_LIMITS $COMMON" ;;
   *) echo "unknown flavour $FL" >&2; exit 2 ;;
 esac
+rm -f $O/*.o $O/fail
 for f in $REPO/cJSON.c $REPO/cJSON_Utils.c; do
-  $CC $CF -c $f -o $O/$(basename $f .c).o &
+  ( $CC $CF -c $f -o $O/$(basename $f .c).o || touch $O/fail ) &
 done
 for f in $V/harness/*.c; do
-  $CC $CF -c $f -o $O/h_$(basename $f .c).o &
+  ( $CC $CF -c $f -o $O/h_$(basename $f .c).o || touch $O/fail ) &
 done
 wait
+[ -e $O/fail ] && { echo "build.sh: compilation failed" >&2; exit 1; }
 # direct uses of the C allocator by library code become visible to the driver (no source change)
 for o in cJSON cJSON_Utils; do
   objcopy --redefine-sym malloc=vd_libc_malloc --redefine-sym free=vd_libc_free --redefine-sym realloc=vd_libc_realloc $O/$o.o
